@@ -94,7 +94,7 @@ pub fn app_header_input() {
     }
 }
 
-//# harness: name=c10_app_header_output prop=C10,C07,C12 tier=thorough unwind=50 timeout=1800 stubs=fmt
+//# harness: name=c10_app_header_output prop=C10,C07,C12 tier=manual unwind=50 timeout=1800 stubs=fmt
 //# functions: headers::ApplicationHeader::parse (output direction)
 //# bound: all ASCII strings of 0..48 bytes starting with 'O', unwind 50
 pub fn app_header_output() {
